@@ -13,6 +13,7 @@ class Built:
         self.types = {}  # config type name -> class
         self.log = []  # M-log events
         self.calls = {}  # callable-default counters by path
+        self.decorated = {}  # method key -> what the instance_method decorator returned
 
 
 def resolve(obj, mapping):
@@ -283,12 +284,23 @@ def _fill(cc, schema, node, built, prefix, via=""):
         elif ch["kind"] == "ctype":
             put(key, _make_type(cc, ch, built, path))
         elif ch["family"] == "method":
-            fn = _make_method(ch, built, path)
-            cc.instance_method(here(), key)(fn)
+            again = ch["params"].get("reuse_of")
+            if again and again in built.decorated:
+                # the name that an earlier @instance_method decoration left behind is registered a second time
+                fn = built.decorated[again]
+            else:
+                fn = _make_method(ch, built, path)
+            built.decorated[key] = cc.instance_method(here(), key)(fn)
         else:
             put(key, make_field(cc, ch, built, path))
-    for vspec in node.get("validators", ()):
-        cc.validator(here())(_schema_validator(built, prefix, vspec))
+    if node.get("shared_decorator") and len(node.get("validators", ())) > 1:
+        # one decorator object applied to several functions
+        deco = cc.validator(here())
+        for vspec in node["validators"]:
+            deco(_schema_validator(built, prefix, vspec))
+    else:
+        for vspec in node.get("validators", ()):
+            cc.validator(here())(_schema_validator(built, prefix, vspec))
 
 
 def _use_standalone(cc, schema):
